@@ -6,7 +6,7 @@ C08 - bit-field keys are collision-free.  Property theorems about the model
 `assign_fields` (successful or raising half-way) on a `BitField(L)`, with *arbitrary*
 instance values at every step (more general than the instances the code can create).
 -/
-import RigModel.Lemmas.C08Key
+import RigModel.Lemmas.C08Fixed
 set_option linter.unusedSimpArgs false
 set_option linter.unusedVariables false
 
@@ -183,6 +183,166 @@ theorem orthogonal {L : Nat} {st : State} (h : Reachable L st) {fv fv' : Reqs} {
     k &&& m' ≠ k' &&& m ∧ ¬ Matches k k' m' ∧ ¬ Matches k' k m :=
   orthogonal_lemma (reachable_inv h).1.disjoint hfit hfit' hk hm hk' hm' he he' hx hx' hne
 
+/-! ### the second invariant: structure of the tree and tag closure -/
+
+theorem inv2_init (L : Nat) : Inv2 ⟨L, []⟩ :=
+  ⟨by intro pi hpi; simp [shape] at hpi, by intro e he; simp at he⟩
+
+theorem reachable_inv2 {L : Nat} {st : State} (h : Reachable L st) : Inv2 st := by
+  induction h with
+  | init => exact inv2_init L
+  | add hr h ih => exact addField_inv2 (reachable_inv hr).1 ih h
+  | call _ h ih => exact call_inv2 ih h
+  | assign _ ih => exact assignFieldsP_inv2 ih
+
+/-- **tree_structure.** Over every history: every child key of the tree is a non-empty tuple of (identifier, value)
+pairs whose identifiers are fields of the parent node (so inner nodes are never empty and a field's requirements
+name fields that are present with it). -/
+theorem tree_structure {L : Nat} {st : State} (h : Reachable L st) : Struct st.entries :=
+  (reachable_inv2 h).struct
+
+/-- **tag_closed.** Over every history: every field named in the requirements of a tagged field (and present with
+it) carries the tag - `get_mask(tag=t)` / `get_value(tag=t)` always include the fields a tagged field depends on. -/
+theorem tag_closed {L : Nat} {st : State} (h : Reachable L st) : SpecTagClosed st.entries :=
+  (reachable_inv2 h).tagClosed
+
+/-- the same in terms of `get_field`: for a present field `e` with tag `t`, every identifier of `e`'s requirements
+resolves (in the same instance) to a field carrying `t` -/
+theorem tag_closed_getField {L : Nat} {st : State} (h : Reachable L st) {fv : Reqs} {e : Entry}
+    (he : e ∈ enabledFields st.entries fv) {t : String} (ht : t ∈ e.field.tags) {i : Ident} {v : Nat}
+    (hiv : (i, v) ∈ e.reqs) : ∃ p, getField st.entries i fv = some p ∧ t ∈ p.field.tags := by
+  have hi := (reachable_inv h).1
+  have hi2 := reachable_inv2 h
+  obtain ⟨he1, he2⟩ := List.mem_filter.mp he
+  obtain ⟨y, hy, hyi, hye⟩ := parent_exists hi2.struct hi.selfc he1 hiv
+  have hfv : ∀ iv ∈ e.reqs, fv.lookup iv.1 = some iv.2 := (enabled_iff fv e).mp he2
+  have hyfv : y.enabled fv = true := by
+    rw [enabled_iff]; intro jw hjw
+    exact hfv jw (lookup_mem ((enabled_iff _ _).mp hye jw hjw))
+  cases hg : getField st.entries i fv with
+  | none =>
+    unfold getField at hg
+    rw [List.find?_eq_none] at hg
+    have := hg y hy
+    simp [hyi, hyfv] at this
+  | some p =>
+    obtain ⟨h1, h2, h3⟩ := getField_some hg
+    have := eq_of_enabled_same_ident hi.unique h1 hy (h2.trans hyi.symm) h3 hyfv
+    subst this
+    exact ⟨p, rfl, hi2.tagClosed e he1 p hy ⟨v, hyi ▸ hiv⟩ hye t ht⟩
+
+/-! ### after a successful `assign_fields` every field has a position and a length -/
+
+/-- **all_fixed_after_assign.** -/
+theorem all_fixed_after_assign {L : Nat} {st st' : State} (h : Reachable L st)
+    (ha : assignFields st = .ok st') : AllFixed st'.entries :=
+  allFixed_of_assign (reachable_inv h).1 (reachable_inv2 h).struct ha
+
+/-- hence every getter of every instance whose present fields all have values succeeds -/
+theorem getMask_ok_after_assign {L : Nat} {st st' : State} (h : Reachable L st)
+    (ha : assignFields st = .ok st') (fv : Reqs) : ∃ m, getMask st'.entries fv none none = .ok m := by
+  have hf := all_fixed_after_assign h ha
+  unfold getMask selectFields
+  simp only
+  split
+  · rename_i hany
+    simp only [List.any_eq_true, Bool.not_eq_true'] at hany
+    obtain ⟨e, he, hfalse⟩ := hany
+    have := hf e (List.mem_filter.mp he).1
+    rw [this] at hfalse; exact absurd hfalse (by simp)
+  · exact ⟨_, rfl⟩
+
+/-! ### histories with their instances
+
+`ReachableI L st insts`: `st` is the tree and `insts` the `field_values` dicts of all `BitField` instances created
+so far (the root instance `{}` first), exactly as the code creates them: `__call__` on an existing instance
+appends one.  `add_field` is allowed with arbitrary values (more general than the code). -/
+
+inductive ReachableI (L : Nat) : State → List Reqs → Prop
+  | init : ReachableI L ⟨L, []⟩ [[]]
+  | add {st st' insts fv ident length startAt tags} :
+      ReachableI L st insts → addField st fv ident length startAt tags = .ok st' → ReachableI L st' insts
+  | call {st st' insts fv fv' kw} : ReachableI L st insts → fv ∈ insts → call st fv kw = .ok (st', fv') →
+      ReachableI L st' (insts ++ [fv'])
+  | assign {st insts} : ReachableI L st insts → ReachableI L (assignFieldsP st).1 insts
+
+theorem reachableI_reachable {L : Nat} {st : State} {insts : List Reqs} (h : ReachableI L st insts) :
+    Reachable L st := by
+  induction h with
+  | init => exact Reachable.init
+  | add _ h ih => exact Reachable.add ih h
+  | call _ _ h ih => exact Reachable.call ih h
+  | assign _ ih => exact Reachable.assign ih
+
+/-- **instance invariant**: every value of every instance names a field present in that instance and is at most
+that field's `max_value` -/
+theorem reachableI_instOK {L : Nat} {st : State} {insts : List Reqs} (h : ReachableI L st insts) :
+    ∀ fv ∈ insts, InstOK st.entries fv := by
+  induction h with
+  | init => intro fv hfv; simp at hfv; subst hfv; intro iv hiv; simp at hiv
+  | add _ h ih => exact fun fv hfv => addField_instOK h (ih fv hfv)
+  | call hr _ h ih =>
+    obtain ⟨hnew, hold⟩ := call_instOK (reachable_inv (reachableI_reachable hr)).1 h
+    intro fv hfv
+    rcases List.mem_append.mp hfv with hfv | hfv
+    · exact hold fv (ih fv hfv)
+    · simp at hfv; subst hfv; exact hnew
+  | assign _ ih => exact fun fv hfv => assignFieldsP_instOK (ih fv hfv)
+
+/-- **values_fit.** Over every history, every value of every instance fits the length of the field holding it
+(whenever that length is known): the `ValuesFit` hypothesis of `readback` / `orthogonal` holds for every instance
+the code can create. -/
+theorem values_fit {L : Nat} {st : State} {insts : List Reqs} (h : ReachableI L st insts) {fv : Reqs}
+    (hfv : fv ∈ insts) : ValuesFit st.entries fv :=
+  valuesFit_of_instOK (reachable_inv (reachableI_reachable h)).1 (reachableI_instOK h fv hfv)
+
+/-- the decidable forms evaluated by the oracle on the implementation's instances are the predicates above -/
+theorem instOKB_iff (es : List Entry) (fv : Reqs) : instOKB es fv = true ↔ InstOK es fv := by
+  simp only [instOKB, InstOK, ValOK, List.all_eq_true, List.any_eq_true, Bool.and_eq_true, beq_iff_eq,
+    decide_eq_true_eq, and_assoc]
+
+theorem valuesFitB_iff (es : List Entry) (fv : Reqs) : valuesFitB es fv = true ↔ ValuesFit es fv := by
+  simp only [valuesFitB, ValuesFit, List.all_eq_true]
+  constructor
+  · intro h e he x l hx hl
+    have := h e he
+    simpa [hx, hl] using this
+  · intro h e he
+    cases hx : fv.lookup e.ident <;> cases hl : e.field.length <;> simp
+    exact h e he _ _ hx hl
+
+/-- **readback_instance.** `readback` for every instance of every history, without side condition. -/
+theorem readback_instance {L : Nat} {st : State} {insts : List Reqs} (h : ReachableI L st insts) {fv : Reqs}
+    (hfv : fv ∈ insts) {key : Nat} (hk : getValue st.entries fv none none = .ok key) {e : Entry}
+    (he : e ∈ enabledFields st.entries fv) {x s l : Nat} (hx : fv.lookup e.ident = some x)
+    (hloc : getLocationAndLength st.entries fv e.ident = .ok (s, l)) : ReadBack key s l x :=
+  readback (reachableI_reachable h) (values_fit h hfv) hk he hx hloc
+
+/-- **instances_differ_on_common.** Two instances of one history whose dicts differ (as mappings) differ on a
+field that is present in both.  (For arbitrary dicts this needs "every key names a present field":
+`{zz: 1}` and `{}` differ on no field.) -/
+theorem instances_differ_on_common {L : Nat} {st : State} {insts : List Reqs} (h : ReachableI L st insts)
+    {fv fv' : Reqs} (hfv : fv ∈ insts) (hfv' : fv' ∈ insts) (hne : ∃ i, fv.lookup i ≠ fv'.lookup i) :
+    ∃ e, e ∈ enabledFields st.entries fv ∧ e ∈ enabledFields st.entries fv' ∧
+      fv.lookup e.ident ≠ fv'.lookup e.ident := by
+  have hi := reachableI_instOK h
+  obtain ⟨e, he, h1, h2, h3⟩ := differ_on_common (reachable_inv2 (reachableI_reachable h)).struct
+    (fun iv hiv => by obtain ⟨e, he, a, b, _⟩ := hi fv hfv iv hiv; exact ⟨e, he, a, b⟩)
+    (fun iv hiv => by obtain ⟨e, he, a, b, _⟩ := hi fv' hfv' iv hiv; exact ⟨e, he, a, b⟩) hne
+  exact ⟨e, List.mem_filter.mpr ⟨he, h1⟩, List.mem_filter.mpr ⟨he, h2⟩, h3⟩
+
+/-- **orthogonal_instances.** Any two *different* complete value assignments (instances of one history for which
+`get_value()` succeeds) produce key/mask pairs that do not match each other - no side condition. -/
+theorem orthogonal_instances {L : Nat} {st : State} {insts : List Reqs} (h : ReachableI L st insts)
+    {fv fv' : Reqs} (hfv : fv ∈ insts) (hfv' : fv' ∈ insts) {k m k' m' : Nat}
+    (hk : getValue st.entries fv none none = .ok k) (hm : getMask st.entries fv none none = .ok m)
+    (hk' : getValue st.entries fv' none none = .ok k') (hm' : getMask st.entries fv' none none = .ok m')
+    (hne : ∃ i, fv.lookup i ≠ fv'.lookup i) :
+    k &&& m' ≠ k' &&& m ∧ ¬ Matches k k' m' ∧ ¬ Matches k' k m :=
+  orthogonal_complete_lemma (reachable_inv (reachableI_reachable h)).1
+    (reachable_inv2 (reachableI_reachable h)).struct (reachableI_instOK h fv hfv) (reachableI_instOK h fv' hfv')
+    hk hm hk' hm' hne
+
 /-! non-vacuity: a reachable state with two scopes, after assignment -/
 example : ∃ st, Reachable 8 st ∧ st.entries.length = 1 ∧ allFixedB st.entries = true := by
   refine ⟨_, Reachable.assign (Reachable.add (fv := []) (ident := "a") (length := some 3) (startAt := none)
@@ -204,5 +364,30 @@ example : ∃ st fv, Reachable 8 st ∧ getValue st.entries fv none none = .ok 2
   rcases this with rfl | rfl
   · simp [List.lookup] at hx hl; subst hx hl; decide
   · simp [List.lookup] at hx hl; subst hx hl; decide
+
+/-- non-vacuity of `tag_closed` / `tree_structure`: a tagged field `b` in the scope a=0 passes its tag to `a` -/
+example : ∃ st, Reachable 8 st ∧
+    (st.entries.map fun e => (e.ident, e.path, e.field.tags)) = [("a", [], ["t"]), ("b", [[("a", 0)]], ["t"])] := by
+  refine ⟨_, Reachable.add (fv := [("a", 0)]) (ident := "b") (length := none) (startAt := none) (tags := ["t"])
+    (Reachable.add (fv := []) (ident := "a") (length := none) (startAt := none) (tags := []) Reachable.init rfl) rfl, ?_⟩
+  decide
+
+/-- non-vacuity of the instance theorems: two different complete instances (a=1 with b=2 in its scope, and a=0) of
+one history, both with keys -/
+example : ∃ st insts fv fv', ReachableI 8 st insts ∧ fv ∈ insts ∧ fv' ∈ insts ∧
+    getValue st.entries fv none none = .ok 6 ∧ getValue st.entries fv' none none = .ok 0 ∧
+    getMask st.entries fv none none = .ok 7 ∧ getMask st.entries fv' none none = .ok 4 ∧
+    (∃ i, fv.lookup i ≠ fv'.lookup i) := by
+  refine ⟨_, _, [("b", 2), ("a", 1)], [("a", 0)],
+    ReachableI.call (fv := []) (kw := [("a", 0)])
+      (ReachableI.assign
+        (ReachableI.call (fv := [("a", 1)]) (kw := [("b", 2)])
+          (ReachableI.add (fv := [("a", 1)]) (ident := "b") (length := some 2) (startAt := none) (tags := [])
+            (ReachableI.call (fv := []) (kw := [("a", 1)])
+              (ReachableI.add (fv := []) (ident := "a") (length := some 1) (startAt := none) (tags := [])
+                ReachableI.init rfl)
+              (by simp) rfl) rfl)
+          (by simp) rfl))
+      (by simp) rfl, by simp, by simp, by rfl, by rfl, by rfl, by rfl, ⟨"a", by decide⟩⟩
 
 end Rig.C08
